@@ -15,3 +15,39 @@ def concrete(v):
         return ch.deep_realize(v)
     except Exception:
         return "<unrealised>"
+
+
+class notrace:
+    """Run a block of *concrete* checking code natively (CrossHair's NoTracing) when called from a
+    traced harness; no-op otherwise.  Only for code whose inputs are concrete on the path."""
+
+    def __enter__(self):
+        self.cm = None
+        if "crosshair.tracers" in sys.modules:
+            from crosshair.tracers import NoTracing, is_tracing
+            if is_tracing():
+                self.cm = NoTracing()
+                self.cm.__enter__()
+        return self
+
+    def __exit__(self, *a):
+        if self.cm is not None:
+            return self.cm.__exit__(*a)
+        return False
+
+
+def pick(x, n):
+    """Concrete int equal to the (possibly symbolic) x, which must lie in range(n): a linear scan of
+    comparisons, i.e. one solver-decided branch per candidate; every feasible candidate becomes a path."""
+    for i in range(n):
+        if x == i:
+            return i
+    raise AssertionError("pick: value outside range")
+
+
+def pick_from(x, candidates):
+    """like pick() for an explicit candidate list"""
+    for c in candidates:
+        if x == c:
+            return c
+    raise AssertionError("pick_from: value outside candidates")
